@@ -2,6 +2,7 @@ package fuse
 
 import (
 	"context"
+	"io"
 
 	"github.com/jacobsa/fuse"
 	"github.com/oneconcern/datamon/pkg/cafs"
@@ -29,6 +30,13 @@ func (fs *readOnlyFsInternal) readAtBundle(file *FsEntry, destination []byte, of
 		if err != nil {
 			logger.Error("error in unstreamed GetAt", zap.String("hash", file.hash), zap.Error(err))
 			return 0, fuse.EIO
+		}
+
+		if closer, ok := reader.(io.Closer); ok {
+			// the staged file is opened for every read: release its descriptor
+			defer func() {
+				_ = closer.Close()
+			}()
 		}
 
 		n, err := reader.ReadAt(destination, offset)
